@@ -138,6 +138,18 @@ DIRS_STATIC = ("a", "b", "src")
 DIR_TARGETS = ("a/", "b/", "out/")
 
 
+_OUTCOME_CACHE: dict = {}
+
+
+def _validate_unchanged_outcome() -> tuple[str, bool]:
+    """(state name, deferred) of `Executor.validate_dynamic_job` when the digest is unchanged, read from
+    the repository's executor.py (translator/gen_sched.py: executor_outcomes, fail closed)."""
+    if "v" not in _OUTCOME_CACHE:
+        from translator import gen_sched
+        _OUTCOME_CACHE["v"] = gen_sched.executor_outcomes()["validate_unchanged"]
+    return _OUTCOME_CACHE["v"]
+
+
 # ---------------------------------------------------------------------------------------------
 # Snapshot
 # ---------------------------------------------------------------------------------------------
@@ -926,7 +938,11 @@ class Sim:
             if changed:
                 self._reset_to_pending(step)
             else:
-                step.set_state(StepState.PENDING)
+                # validate_dynamic_job, "no relevant input changed": what the executor of the
+                # repository does there (read from its source by the translator; PENDING and deferred
+                # since d760e3e, D36: without the flag the same validation job is handed out for ever)
+                state_name, deferred = _validate_unchanged_outcome()
+                step.set_state(StepState[state_name], deferred)
             return {}
 
         await self._event("validate", {"step": step.i, "changed": changed}, fn)
